@@ -173,11 +173,12 @@ def explore(ctx):
         except Exception:
             pass
 
-    removes = [[], ['LinesPass::0'], ['ClangPass::rename-fun', 'BlankPass'], ['BalancedPass::curly', 'bogus']]
+    removes = [[], ['LinesPass::0'], ['ClangBinarySearchPass::replace-function-def-with-decl', 'ClangBinarySearchPass::remove-unused-function'],
+               ['ClangPass::rename-fun', 'BlankPass'], ['BalancedPass::curly', 'bogus']]
     combos = list(itertools.product([[], ['slow'], ['windows'], ['slow', 'windows']], [False, True], [False, True]))
     for name, d in shipped.items():
         for options, not_c, renaming in combos:
-            for removed in (removes if not ctx.quick() else removes[:2]):
+            for removed in (removes if not ctx.quick() else removes[:3]):
                 one(name, d, options, removed, not_c, renaming, 'shipped')
     n = 150 if ctx.quick() else 1500
     small = {'first': shipped['delta.json']['first'], 'main': shipped['all.json']['main'][:12], 'last': shipped['all.json']['last'][:6]}
